@@ -21,7 +21,7 @@ import (
 )
 
 const rule = "inputs: (a) every string up to a length bound over the token alphabet, (b) random grammar derivations with random spacing, " +
-	"(b2) pairs of strings for reference-free relations (closure under concatenation and splitting, rendering distributes over concatenation), (c) byte-level mutations of accepted strings, (d) native fuzzing in the thorough tier. " +
+	"(b2) pairs of strings for reference-free relations (closure under concatenation and splitting, rendering distributes over concatenation), (c) byte-level mutations of accepted strings and insertions of code points that fold to ASCII letters, digits or blanks, (d) native fuzzing in the thorough tier. " +
 	"non-trivial = an accepted string, or a rejected string that one deletion turns into an accepted one (the boundary of the language); distinct by input text"
 
 var assumptions = []string{
@@ -475,9 +475,21 @@ var seeds = []string{
 	"webapi", "/webapi/{name", "/webapi/name}", "/webapi/{name: [a-z]}",
 }
 
+// tricky are code points that case folding, width folding or "is it a blank /
+// digit / letter" predicates confuse with members of the ASCII alphabets.
+var tricky = []string{"\u212a", "\u017f", "\u0130", "\u0131", "\u00e9", "\uff21", "\uff10", "\u0663", "\u00a0", "\u2028", "\u200b", "\ufeff", "\u2160", "\u00df", "\u1e9e"}
+
 func mutate(t *rapid.T, s string) string {
 	b := []byte(s)
 	n := rapid.IntRange(1, 3).Draw(t, "nmut")
+	if rapid.IntRange(0, 4).Draw(t, "tricky") == 0 {
+		j := rapid.IntRange(0, len(b)).Draw(t, "tj")
+		x := tricky[rapid.IntRange(0, len(tricky)-1).Draw(t, "tx")]
+		if rapid.Bool().Draw(t, "treplace") && j < len(b) {
+			return string(b[:j]) + x + string(b[j+1:]) // in place of one byte
+		}
+		return string(b[:j]) + x + string(b[j:])
+	}
 	hot := []byte("/?{}:, \t\n*[]\\|#$%\x00\xff")
 	for i := 0; i < n; i++ {
 		var c byte
@@ -526,6 +538,11 @@ func TestMutations(t *testing.T) {
 func FuzzParse(f *testing.F) {
 	for _, s := range seeds {
 		f.Add(s)
+	}
+	for _, x := range tricky {
+		f.Add("/" + x)
+		f.Add("/{a" + x + "}")
+		f.Add("/{a: /[a-z" + x + "]+/}")
 	}
 	f.Fuzz(func(t *testing.T, s string) {
 		out := evid.Protect(func() evid.Outcome { return checkWithNeighbours(s) })
